@@ -3,19 +3,23 @@
 -/
 import GruleModel.Proofs.Refine
 import GruleModel.Proofs.SpecTrace
+import GruleModel.Proofs.SnapInj
 namespace Grule
 
-/-- `Side c entries`: user methods are referentially transparent (the documented contract), snapshots
-    determine nodes (`SnapInj`, proved in `Proofs/SnapInj.lean` for well-named ASTs), the rules are
+/-- `Side c entries`: user methods are referentially transparent (the documented contract), float
+    formatting is injective (`FloatPF`; with it snapshots determine nodes, `SnapInj`, proved in `Proofs/SnapInj.lean`), the rules are
     well-formed (`wfRule`: state-changing built-ins only as statements, identifiers are SIMPLENAMEs),
     entry keys are unique (a Go map), and successful assignments leave the working memory coherent
     (`FrameHyp`; discharged from the syntactic predicate `Stable` in `Proofs/Frame.lean`). -/
 structure Side (c : Cfg) (entries : List RuleEntry) : Prop where
   pure : MethodsPure c
-  inj : SnapInj
+  float : FloatPF
   wf : WFEntries entries
   keys : KeysNodup entries
   frame : FrameHyp c (Targets entries)
+
+/-- snapshots determine nodes: a theorem now, no longer a field -/
+theorem Side.inj {c : Cfg} {entries : List RuleEntry} (h : Side c entries) : SnapInj := snapInj_of h.float
 
 /-- the ghost history of the reference run of the same call -/
 def refRun (rc : RunCfg) (c : Cfg) (inst : Instance) (st : Store) : SpecResult :=
